@@ -8,6 +8,13 @@ import itertools
 KINDS = ["PO", "PK", "VP", "KO", "VK"]
 SRC_ANNOS = ["int", "str", "List[int]", "Optional[int]", "Dict[str, int]", "'Outer'"]
 FLAVOURS = ["plain", "plain", "plain", "coroutine", "generator", "asyncgen"]
+# a return annotation longer than 120 columns on its own
+LONG_RET = "Dict[str, " * 12 + "int" + "]" * 12
+
+
+def very_long_name(rnd, base, idx):
+    """a name that alone pushes `def name()` past column 120, so even an empty parameter list must wrap"""
+    return f"{base}{idx}_" + "".join(rnd.choice("abcdefghijklmnopqrstuvwxyz_") for _ in range(rnd.randrange(118, 132)))
 
 
 class PSpec:
@@ -113,7 +120,7 @@ PLACEMENTS = [
 ]
 
 
-def gen_module_specs(rnd, subsets, n_extra):
+def gen_module_specs(rnd, subsets, n_extra, n_edge=3):
     """One module: each kind-subset in `subsets` gives one function in a rotating placement; n_extra more random."""
     specs = []
     used = set()
@@ -139,6 +146,20 @@ def gen_module_specs(rnd, subsets, n_extra):
 
     for i, present in enumerate(subsets):
         add(present, PLACEMENTS[(i + rnd.randrange(len(PLACEMENTS))) % len(PLACEMENTS)])
+    # the wrap with nothing (or one thing) to put on the wrapped lines: no / one parameter and a very long name or a
+    # very long return annotation
+    edge = [
+        ("fnw", [], "MODULE", [], "name"), ("fnw", [], "MODULE", [], "ret"), ("fnw", [], "MODULE", ["PK"], "name"),
+        ("fnw", [], "MODULE", ["VK"], "ret"), ("smethw", ["Outer"], "STATIC", [], "name"),
+        ("smethw", ["Alpha"], "STATIC", [], "ret"), ("methw", ["Outer"], "INSTANCE", [], "name"),
+        ("cmethw", ["Zeta"], "CLASS", [], "ret"), ("smethw", ["Outer"], "STATIC", ["KO"], "name"),
+    ]
+    for base, path, fkind, present, how in rnd.sample(edge, n_edge):
+        receiver = {"INSTANCE": "self", "CLASS": "cls"}.get(fkind)
+        params = gen_params(rnd, present, len(present), False, receiver, annotate=0.0)
+        name = very_long_name(rnd, base, len(specs)) if how == "name" else f"{base}{len(specs)}"
+        flavour = rnd.choice(["plain", "plain", "coroutine"])
+        specs.append(FSpec(name, params, list(path), fkind, flavour, LONG_RET if how == "ret" else None))
     for _ in range(n_extra):
         present = [k for k in KINDS if rnd.random() < 0.5]
         add(present, rnd.choice(PLACEMENTS))
